@@ -57,14 +57,14 @@ theorem encodeFloats_vshape (P : Params) (d : Digits) (fails : Bool) (vs : Shape
   · simp [h, FEnc.vshape]
   · cases d <;> cases fails <;> simp [h, FEnc.vshape]
 
-theorem decodeInts_intBytes (w isz : Nat) (vs : Shape) (items : List Item)
+theorem decodeInts_intBytes (be : Bool) (w isz : Nat) (vs : Shape) (items : List Item)
     (hw : 0 < w) (hisz : 0 < isz) (hlen : ∀ it ∈ items, it.length = isz)
     (hsize : asize items = size vs) (hr : ∀ it ∈ items, ∀ x ∈ it, x < 256 ^ w) :
-    decodeInts w isz vs (intBytes w items) = some items := by
-  have hbl : (intBytes w items).length = items.flatten.length * w :=
-    length_flatMap_const (leBytes w) w (leBytes_length w) _
-  have hflat : (chunks w (intBytes w items).length (intBytes w items)).map ofLeBytes = items.flatten := by
-    apply map_ofLe_chunks w hw
+    decodeInts be w isz vs (intBytes be w items) = some items := by
+  have hbl : (intBytes be w items).length = items.flatten.length * w :=
+    length_flatMap_const (wordBytes be w) w (wordBytes_length be w) _
+  have hflat : (chunks w (intBytes be w items).length (intBytes be w items)).map (ofWordBytes be) = items.flatten := by
+    apply map_ofLe_chunks be w hw
     · intro x hx
       obtain ⟨it, hit, hxi⟩ := List.mem_flatten.mp hx
       exact hr it hit x hxi
@@ -125,7 +125,7 @@ theorem decodeVals_valueStep (P : Params) (s : St) (am : Option (List Bool)) (dt
     obtain ⟨hw, hr⟩ := hok.int_ok w sg rfl
     simp only [valueStep, List.reverse_cons, List.reverse_nil, List.nil_append, List.singleton_append,
       decodeValsLoop, Option.getD_some, P.bz2.roundtrip]
-    rw [decodeInts_intBytes w _ vs items hw hok.isz_pos hok.item_len hok.size_eq hr]
+    rw [decodeInts_intBytes sg.be w _ vs items hw hok.isz_pos hok.item_len hok.size_eq hr]
     rfl
   | bool =>
     simp only [valueStep, List.reverse_cons, List.reverse_nil, List.nil_append, List.singleton_append,
